@@ -389,7 +389,7 @@ def decode_cfg(vals):
         return None
 
 
-def cfg_to_module(vals, prop):
+def cfg_to_module(vals, prop, shape=0):
     """Engine B counterexample -> a real (declaration, bundle) module for compile confirmation"""
     from . import corpus as C
     flags = [v[0] != 0 for v in vals[:17]]
@@ -418,7 +418,12 @@ def cfg_to_module(vals, prop):
         if top > C.I64_MAX:
             lo -= top - C.I64_MAX
             top = C.I64_MAX
-        values = list(range(lo, lo + n - 1)) + [top]
+        # where the missing discriminants sit is not part of Engine B's abstraction: try a few
+        # placements (after the last-but-one variant, after the first, after the second, in
+        # the middle) - the real macro has to behave for every one of them
+        cut = [n - 1, 1, 2, n // 2, (n // 2) | 1][shape % 5]
+        cut = max(1, min(n - 1, cut))
+        values = list(range(lo, lo + cut)) + [v + missing for v in range(lo + cut, lo + n)]
     want = {1: "i8", 2: "i16", 4: "i32", 8: "i64", 16: "i128"}.get(size, "i32")
     repr_ = want
     if not all(C.rmin(want) <= v <= C.rmax(want) for v in values) or len(values) > 2 ** C.REPRS[want][0]:
@@ -430,20 +435,32 @@ def cfg_to_module(vals, prop):
 
 def confirm_cfg_by_compile(rep, rdir, vals, must_compile):
     """-> (confirmed, text).  The solver proposed a configuration; the REAL macro decides."""
-    try:
-        m, approx = cfg_to_module(vals, rep.prop)
-    except Exception as ex:
-        return None, "cannot build a declaration for the configuration: %s" % ex
-    d = rdir + "_cfg"
-    RP.write_replay_crate(d, m.name, m.header(), "kani::exhausted", [], repo=REPO)
-    cmd = ["cargo", "build", "--offline", "--lib", "--target-dir", RP.REPLAY_TARGET]
-    rc, out, dt = K.run(cmd, d, 900, log=os.path.join(d, "build.log"), limits=False)
-    built = rc == 0
-    txt = "real derive on %s %s: %s%s" % (m.decl.repr, m.bundle.describe(), "compiles" if built else "is rejected / does not compile",
-                                          " (number of variants capped / repr widened for the confirmation; the number of missing discriminants is kept)" if approx else "")
-    if must_compile:
-        return (not built), txt
-    return built, txt
+    txt = ""
+    seen = set()
+    for shape in range(5):
+        try:
+            m, approx = cfg_to_module(vals, rep.prop, shape)
+        except Exception as ex:
+            return None, "cannot build a declaration for the configuration: %s" % ex
+        key = tuple(m.decl.disc)
+        if key in seen:
+            continue
+        seen.add(key)
+        d = rdir + "_cfg"
+        RP.write_replay_crate(d, m.name, m.header(), "kani::exhausted", [], repo=REPO)
+        cmd = ["cargo", "build", "--offline", "--lib", "--target-dir", RP.REPLAY_TARGET]
+        rc, out, dt = K.run(cmd, d, 900, log=os.path.join(d, "build.log"), limits=False)
+        built = rc == 0
+        txt = "real derive on #[repr(%s)] %s, discriminants %s: %s%s" % (
+            m.decl.repr, m.bundle.describe(), m.decl.describe()["discriminants"],
+            "compiles" if built else "is rejected / does not compile",
+            " (number of variants capped / repr widened for the confirmation; the number of missing discriminants is kept)" if approx else "")
+        confirmed = (not built) if must_compile else built
+        if confirmed:
+            return True, txt
+        if m.decl.gapless:
+            break
+    return False, txt + " (and %d other placements of the missing discriminants)" % max(0, len(seen) - 1)
 
 
 def replay_candidate(rep, crate_dir, cand, harness_timeout, stubbing, extra_lib, extra_files, deps=None):
